@@ -4,9 +4,9 @@ C10 — Reset or exit at any point leaks no endpoint/task and has no late effect
 The quantifier (every await point reachable during discovery, each handshake step, steady state) is a finite table that is
 regenerated from the source on every run (`Generated.crashPoints`, `Generated.teardownFacts`), so kernel evaluation over
 the whole table is the proof.  The FULL statement is false on the current tree (what remains of finding D6: endpoints are not closed at context exit, nor
-when a reset lands inside the endpoint creation of `_connect`; D8a: a reset during `_connect` kills the sequence pump), so:
+when a reset lands inside the endpoint creation of `_connect`), so:
   * what does hold is proved for every point (`tasks_never_leak`, `no_observer_left`, `reset_outside_connect_is_clean`);
-  * the leaks are pinned down EXACTLY (`endpoint_leaks_exact`, `pump_dies_exactly_in_connect`), so that any other leak, or
+  * the leaks are pinned down EXACTLY (`endpoint_leaks_exact`, `tasks_never_leak`), so that any other leak, or
     a repaired one, changes a theorem;
   * the full statement is kept visible as `NoLeakAtAnyPoint`, with the witnesses of its negation.
 -/
@@ -59,9 +59,9 @@ theorem endpoint_leaks_exact :
     ((crashPoints.filter (fun p => (afterReset teardownFacts p).endpointOpen)).map (·.endpoint)) = [.pending] ∧
     endpointLeaks teardownFacts crashPoints .exit = ["_connect", "pump-connected"] := by decide
 
-/-- **the pump dies exactly when the reset lands inside `_connect`** (finding D8a, shared with C09) -/
-theorem pump_dies_exactly_in_connect : ∀ p ∈ crashPoints,
-    ((afterReset teardownFacts p).pumpAlive = false ↔ p.proc = "_connect") := by decide
+/-- **the manager keeps working after a reset at any point**: the sequence pump survives (full clause; it holds since the
+`fix:` commit that makes `_sequence_pump` survive exceptions) -/
+theorem pump_survives_every_reset : ∀ p ∈ crashPoints, (afterReset teardownFacts p).pumpAlive = true := by decide
 
 /-- **bounded over cycles**: reset / reconnect cycles in steady state never accumulate endpoints (full statement; it
 holds since the `fix:` commit that closes the transport in `disconnect()`) -/
